@@ -281,3 +281,6 @@ _add("C16", "x.copy() is proved to return independent data with the same numbers
 _add("C13", "Proved in addition: UnitRegistry(lut=...) copies the caller's table (never aliases it); UnitRegistry.from_json "
             "returns a registry that owns a freshly made table holding exactly the decoded rows (results of memoised "
             "helpers carry a ghost mark: they may be shared with other callers); unyt_array.__setstate__ likewise.")
+_add("C17", "Mixed-unit arithmetic: the commensurable ufunc contracts (add, subtract, maximum ..., comparisons) carry C17's "
+            "dtype clauses: the result of a rescaling operation is floating point or complex, and no operand is cast from a "
+            "complex to a real dtype on the way (ghost event of the cast model).")
